@@ -10,7 +10,7 @@ import (
 )
 
 var voteVariants = []string{"flip", "wrongkey", "crosskind", "otherround", "othertarget", "zerosig", "emptysig", "idrange", "idN", "idmax", "idlen0", "idlen1", "idlen3", "badpkh", "oldset", "mix", "dupid", "emptymap"}
-var phVariants = []string{"forgedNext", "forgedCur", "forgedNextPK", "forgedCurPK", "badhash", "nonval", "badsig", "nokey", "badpcp", "shortpcp", "foreignpcp", "duppcp", "pcpnil3", "emptypcp", "pcpidN", "pcpidlen1"}
+var phVariants = []string{"forgedNext", "forgedCur", "forgedNextPK", "forgedCurPK", "badhash", "nonval", "badsig", "nokey", "badpcp", "shortpcp", "foreignpcp", "duppcp", "pcpnil3", "pcponlynil3", "emptypcp", "pcpidN", "pcpidlen1"}
 var replayVariants = []string{"ok", "lowpower", "byzonly", "nextround", "prevH", "nextH", "badhash", "badprev", "foreign", "blockB", "nosigs", "pvsigs"}
 
 // alphabet lists the environment events. "full" is used for single deviations, "core" where the space is squared or cubed.
@@ -69,7 +69,7 @@ func alphabet(level string) []string {
 		}
 	}
 	for _, v := range phVariants {
-		if level == "core" && !(v == "forgedNext" || v == "forgedNextPK" || v == "badsig" || v == "pcpnil3") {
+		if level == "core" && !(v == "forgedNext" || v == "forgedNextPK" || v == "badsig" || v == "pcpnil3" || v == "pcponlynil3") {
 			continue
 		}
 		add("PH:A:" + v)
@@ -272,6 +272,8 @@ func exploreBFS(c *vx.Ctx, props string, seeds []int, depth int, alpha []string,
 		// ... and: split precommits (the state machine's precommit-delay timer runs), the state machine not reading,
 		// the network already voting in the next round (the mirror jumps, a jump-ahead signal is pending).
 		frontier = append(frontier, node{7, []string{"V:c:3:nil", "StallS", "V:p:h:A@0,1"}})
+		// ... and then the network leaves that round too (nil precommits) while the jump-ahead is still unread.
+		frontier = append(frontier, node{7, []string{"V:c:3:nil", "StallS", "V:p:h:A@0,1", "V:c:h:nil@0,1"}})
 	}
 	levelDone := -1
 	for d := 0; d <= depth && len(frontier) > 0; d++ {
@@ -659,6 +661,22 @@ func exploreNet(c *vx.Ctx, heights int, maxDev int, seeds [][]string) {
 		}
 		ok := runJobs(c, js, st, []string{"C03"}, each)
 		c.Extra["scripted_adversary_missing_proposal"] = map[string]any{"executions": len(js), "completed": ok}
+	}
+	// Scripted adversary "forged-relay" (see net.go), alone and with every single deviation on top of it.
+	{
+		advArgs := func() map[string]string {
+			m := args()
+			m["adversary"] = "forged-relay"
+			return m
+		}
+		js := []vx.Job{{Exec: "net", Args: advArgs()}}
+		for s := 0; s <= steps+6; s++ {
+			for _, op := range full {
+				js = append(js, vx.Job{Exec: "net", Hist: []string{fmt.Sprintf("%d:%s", s, op)}, Args: advArgs()})
+			}
+		}
+		ok := runJobs(c, js, st, []string{"C03"}, each)
+		c.Extra["scripted_adversary_forged_relay"] = map[string]any{"executions": len(js), "completed": ok}
 	}
 	if completed == 1 && maxDev >= 2 {
 		core := netOps("core")
